@@ -229,6 +229,7 @@ type CheckCtx struct {
 	Extra       map[string]interface{}
 	Replays     int
 	Reproduced  int
+	Validated   int // witness vectors replayed natively for model validation
 	Level       string
 	Programs    int
 	Disagree    int
@@ -291,7 +292,7 @@ func (c *CheckCtx) writeEvidence() {
 		sort.Strings(covers)
 		harn = append(harn, map[string]interface{}{"harness": r.Cfg.Pkg + "." + r.Cfg.Name, "solver": r.Cfg.Solver, "paths": r.Paths, "path_ends": r.Ends,
 			"params": r.Cfg.Params, "unwind": r.Cfg.Unwind, "covers_witnessed": covers, "wall_s": r.Wall, "cut_paths_by_unwind_assumption": r.CutPaths,
-			"go_panics_in_code_under_test": r.Panics, "notes": r.Notes, "cross_solver_disagreements": r.CrossDiff})
+			"go_panics_in_code_under_test": r.Panics, "notes": r.Notes, "cross_solver_disagreements": r.CrossDiff, "solver_process_restarts": r.SolverRestarts})
 	}
 	// encoded functions: repo functions only, with instruction counts
 	enc := map[string]int{}
@@ -330,7 +331,8 @@ func (c *CheckCtx) writeEvidence() {
 	case "model_checking":
 		cov["states"] = paths
 		cov["transitions"] = steps
-		cov["traces_validated_against_impl"] = c.Replays
+		cov["traces_validated_against_impl"] = c.Replays + c.Validated
+		cov["model_validation_witnesses_replayed_natively"] = c.Validated
 	case "translation_validation":
 		cov["programs"] = c.Programs
 		cov["disagreements_checked"] = c.Disagree
